@@ -52,11 +52,13 @@ def run(ctx):
     repo, cg = ctx.repo, ctx.cg
     ctx.rule('R13.1', 'no in-place mutation of a document argument of the public API (store/del/augmented assign/mutator through a reference reachable '
              'from the argument, directly or via a callee whose summary says so); pop+restore pairs are accepted', floor=25)
+    ctx.rule('R13.3', 'the values carried by diff entries and decisions (.valuelist/.value/.diff/.local_diff/.remote_diff) are never modified in place on the merge/patch/render path', floor=1)
     ctx.rule('R13.2', 'results must not hand out references into inputs: every site that puts a sub-object of an input into a result container '
              'without a copy is enumerated (known, site-keyed); a new site is a violation', floor=10)
 
     S = Summaries(repo, cg, lambda f: not f.startswith(('nbdime.webapp', 'nbdime.vcs', 'nbdime.profiling', 'nbdime.config', 'nbdime.args')),
-                  exempt=EXEMPT, scalar_fields=scalar_fields(repo))
+                  exempt=EXEMPT, scalar_fields=scalar_fields(repo),
+                  input_fields={'local_diff', 'remote_diff', 'valuelist', 'value', 'diff'})
     api = facts.lib_api(repo)
     ctx.extra['summaries'] = {'mutates': len(S.mutates), 'returns_alias': len(S.returns), 'functions_analysed': len(S.fids)}
     n_params = 0
@@ -99,6 +101,24 @@ def run(ctx):
             ctx.note('unarmed: %s mutates its argument %s (%s) but is not reachable from the public API' % (f, p, S.mutates[(f, p)]['what'][:50]))
         else:
             ctx.note('%s mutates %s and IS reachable from the public API' % (f, p))
+
+    # ---------------------------------------------------------------- R13.3 values carried by diffs are input data wherever they are reached
+    from ..aliasing import DIFFDATA
+    reach_api = cg.reachable(api)
+    n33 = 0
+    for fid, fa in sorted(S.sites.items()):
+        if fid not in reach_api or not fid.startswith(('nbdime.merging.', 'nbdime.patching', 'nbdime.prettyprint', 'nbdime.diff_utils')):
+            continue
+        n33 += 1
+        if DIFFDATA in fa.mutated:
+            w = fa.mutated[DIFFDATA]
+            if w.get('via'):
+                continue        # reported at the function that holds the mutating statement
+            ctx.inst('R13.3', fid, '%s' % w['what'], False,
+                     'an object reached through .local_diff/.remote_diff/.valuelist/.value/.diff (content of the caller\'s diffs, i.e. of the input notebooks) is modified in place',
+                     w['node'])
+    ctx.inst('R13.3', 'nbdime.merging/patching/prettyprint', '%d functions reachable from the public API examined' % n33, True,
+             'no store/mutator on objects reached through diff-entry value fields', None, nontrivial=False)
 
     # ---------------------------------------------------------------- R13.2
     occ = {}
